@@ -22,7 +22,15 @@ ClusterOk(ss) == Cardinality({ss[i].st.k : i \in 1..Len(ss)}) = 1
 Ordered(ss) == \A i \in 1..(Len(ss) - 1) :
                  /\ Before(End(ss[i]), [h |-> ss[i + 1].st.h, l |-> ss[i + 1].st.l])
                  /\ End(ss[i]) # [h |-> ss[i + 1].st.h, l |-> ss[i + 1].st.l]      \* a real gap
-Init == \E n \in 1..MaxSegs : \E ss \in [1..n -> Seg] : Ordered(ss) /\ ClusterOk(ss) /\ c = ss
+\* one long run of bytes: longer than any record, block or per-record length field of the formats
+\* (wdc records hold at most 65536 bytes; the run crosses one or two 64 KiB boundaries)
+LongLayouts == {<<[st |-> St(0, l, 1), len |-> n]>> : l \in {0, 4096}, n \in {65536, 65537}} \cup {<<[st |-> St(0, 4096, 1), len |-> 131074]>>}
+Ok(ss) == Ordered(ss) /\ ClusterOk(ss)
+\* nested quantifiers, not [1..n -> Seg]: TLC would build that set first (135^3 elements)
+Init == \/ \E a \in Seg : c = <<a>>
+        \/ MaxSegs >= 2 /\ \E a \in Seg : \E b \in Seg : Ok(<<a, b>>) /\ c = <<a, b>>
+        \/ MaxSegs >= 3 /\ \E a \in Seg : \E b \in Seg : Ok(<<a, b>>) /\ \E d \in Seg : Ok(<<a, b, d>>) /\ c = <<a, b, d>>
+        \/ c \in LongLayouts
 Next == FALSE /\ UNCHANGED c
 Emit == PrintT("CASE " \o ToJson(c))
 =============================================================================
